@@ -159,6 +159,9 @@ def run(ctx):
     import scope
     scope.closed_world(C, P, 'C04-PAIR-index')
     must_identifiable(C, P)
+    C.rule('C04-DEV-merge-disjoint', 'a file merge never inserts an element that was already merged into its counterpart (two elements with one path): shared with C09-DEV-bonly')
+    from c09 import dev_bonly
+    dev_bonly(C, P, 'C04-DEV-merge-disjoint')
     return C.finish('Pairing of structural edits with path-index maintenance, decided on the MIR of every body (dominance / all-Ok-paths queries over '
                     'type-resolved events), uniqueness check before every name installation, segment-safe prefix re-keying. '
                     'Does not decide the equality index = tree after arbitrary histories.')
